@@ -299,7 +299,7 @@ Definition get_buffered_data (s : istate) (want : nat) : res (istate * bool * li
   let want' := Nat.min want bufsz in
   let fin (s : istate) :=
       let w := skipn (i_off s) (i_buf s) in Ok (s, nilb w, w) in
-  if (length (i_buf s) =? 0) || (length (i_buf s) - i_off s <? want')
+  if (length (i_buf s) =? i_off s) || (length (i_buf s) - i_off s <? want')
   then match precache s with
        | Ok s' => fin s'
        | Err => Err
